@@ -45,7 +45,8 @@ func (cx *Ctx) runC01() {
 		fams[i] = fam
 	}
 	cx.phase("C01: main batch")
-	results := cx.sim.Run(jobs, nil)
+	// one fresh worker process per spec, so that a failure replays exactly
+	results := cx.simFresh.Run(jobs, nil)
 	cx.phase("C01: analysing")
 	cx.slowest(results, 8)
 
@@ -204,7 +205,7 @@ func isSimplePath(es [][]string) bool {
 
 func (cx *Ctx) c01Fails(c spec.Call, res spec.Resolution, key string) (bool, []JobResult) {
 	job := &spec.Job{ID: 1, Kind: "multi", Calls: []spec.Call{c}, Res: []spec.Resolution{res}, Budgets: budgetFor(len(c.Edges), nodeCount(c.Edges)), WantFull: false}
-	one := *cx.sim
+	one := *cx.simFresh
 	one.N = 1
 	rs := one.Run([]*spec.Job{job}, nil)
 	v, k, _, _ := cx.oracleReturns(rs)
@@ -232,7 +233,7 @@ func (cx *Ctx) c01Minimise(job *spec.Job, j int, key string) {
 	}
 	sc := shrinkCall(c, func(t spec.Call) bool { ok, _ := cx.c01Fails(t, res, key); return ok }, budget)
 	final := spec.Job{ID: 0, Kind: "multi", Calls: []spec.Call{sc}, Res: []spec.Resolution{res}, Budgets: budgetFor(len(sc.Edges), nodeCount(sc.Edges))}
-	one := *cx.sim
+	one := *cx.simFresh
 	one.N = 1
 	rs := one.Run([]*spec.Job{&final}, nil)
 	v, k, what, fp := cx.oracleReturns(rs)
@@ -240,5 +241,5 @@ func (cx *Ctx) c01Minimise(job *spec.Job, j int, key string) {
 		cx.trouble("a shrunk C01 violation did not reproduce (%s)", key)
 		return
 	}
-	cx.report(k, what, &ReplayFile{Property: "C01", Oracle: "c01.returns", Key: k, What: what, Jobs: []ReplayJob{{Pool: "sim", Job: final}}, Expect: fp})
+	cx.report(k, what, &ReplayFile{Property: "C01", Oracle: "c01.returns", Key: k, What: what, Jobs: []ReplayJob{{Pool: "simfresh", Job: final}}, Expect: fp})
 }
